@@ -266,8 +266,10 @@ def part_reference_state(ctx, pq, quick, rng):
                 ins0.append(g["mk"](pq).on_modes(*g["modes"]))
                 name.append(g["name"] + str(g["modes"]))
             lossy = nanc > 0
-            subsets = [tuple(range(d))] + [s for k in (1, 2) for s in itertools.permutations(range(d), k)]
-            for sub in (subsets if not quick else [subsets[0]] + rng.sample(subsets[1:], 2)):
+            # every ordered tuple of distinct modes, including all modes listed in a non-ascending order
+            subsets = [tuple(range(d))] + [s for k in range(1, d + 1) for s in itertools.permutations(range(d), k) if s != tuple(range(d))]
+            full = [s for s in subsets[1:] if len(s) == d]
+            for sub in (subsets if not quick else [subsets[0], rng.choice(full)] + rng.sample(subsets[1:], 2)):
                 exp = born_marginal(probs, sub)
                 ins = ins0 + [pq.ParticleNumberMeasurement().on_modes(*sub)]
                 sig = ("nonuniform-loss" if lossy else "lossless") + ("/subset" if len(sub) < d else "")
@@ -433,7 +435,10 @@ def part_generaldyne(ctx, pq, quick, rng):
         recs = rng.sample(recs, 40)
     dets = {"Heterodyne": (lambda: pq.HeterodyneMeasurement(), np.identity(2), 2),
             "Generaldyne": (lambda: pq.GeneraldyneMeasurement(np.array([[2.0, 0.0], [0.0, 0.5]])), np.array([[2.0, 0.0], [0.0, 0.5]]), 2),
-            "Homodyne": (lambda: pq.HomodyneMeasurement(), np.array([[1e-8, 0.0], [0.0, 1e8]]), 1)}
+            "Homodyne": (lambda: pq.HomodyneMeasurement(), np.array([[1e-8, 0.0], [0.0, 1e8]]), 1),
+            "Homodyne(pi/2)": (lambda: pq.HomodyneMeasurement(phi=np.pi / 2), np.array([[1e-8, 0.0], [0.0, 1e8]]), 1),
+            "Homodyne(pi/3)": (lambda: pq.HomodyneMeasurement(phi=np.pi / 3), np.array([[1e-8, 0.0], [0.0, 1e8]]), 1)}
+    angle = {"Homodyne(pi/2)": np.pi / 2, "Homodyne(pi/3)": np.pi / 3}
     for rec in recs:
         mu, Gam, reps, nbar = GR.decode(rec, d)
         idx = [i - 1 for i in rec["hist"]]
@@ -464,26 +469,94 @@ def part_generaldyne(ctx, pq, quick, rng):
                         continue
                     m, c, size = rec_rng.calls[0]
                     ind = [k for mm in modes for k in (2 * mm, 2 * mm + 1)]
-                    exp_mean = mean[ind]
+                    # homodyne at angle phi measures x_phi = cos(phi) x + sin(phi) p (documented): rotate the exact moments
+                    ph = angle.get(dn, 0.0)
+                    rot = np.kron(np.identity(len(modes)), np.array([[np.cos(ph), np.sin(ph)], [-np.sin(ph), np.cos(ph)]]))
+                    exp_mean = rot @ mean[ind]
                     sig_m = hbar * np.kron(np.identity(len(modes)), detcov)
-                    exp_cov = (cov[np.ix_(ind, ind)] + sig_m) / 2.0
+                    exp_cov = (rot @ cov[np.ix_(ind, ind)] @ rot.T + sig_m) / 2.0
                     if size != 2:
                         ctx.report(f"C02:generaldyne:{dn}:size", f"{dn}: {size} samples requested for shots=2", replay)
                     scale = np.maximum(1.0, np.abs(exp_cov).max())
                     if np.abs(m - exp_mean).max() > 1e-8:
                         ctx.report(f"C02:generaldyne:{dn}:mean", f"{dn} on {modes} after {name} (hbar={hbar}): sampling mean {np.round(m, 6)}, exact <R> {np.round(exp_mean, 6)}", replay)
-                    elif dn != "Homodyne" and np.abs(c - exp_cov).max() > 1e-8 * scale:
+                    elif not dn.startswith("Homodyne") and np.abs(c - exp_cov).max() > 1e-8 * scale:
                         ctx.report(f"C02:generaldyne:{dn}:covariance", f"{dn} on {modes} after {name} (hbar={hbar}): sampling covariance diag {np.round(np.diag(c), 6)}, "
                                    f"exact (sigma+sigma_m)/2 diag {np.round(np.diag(exp_cov), 6)}", replay)
-                    elif dn == "Homodyne" and np.abs(np.diag(c)[0::2] - np.diag(exp_cov)[0::2]).max() > 1e-6 * scale:
+                    elif dn.startswith("Homodyne") and np.abs(np.diag(c)[0::2] - np.diag(exp_cov)[0::2]).max() > 1e-6 * scale:
                         ctx.report(f"C02:generaldyne:{dn}:covariance", f"{dn} on {modes} after {name} (hbar={hbar}): variance of x {np.round(np.diag(c)[0::2], 6)}, "
                                    f"exact sigma_xx/2 {np.round(np.diag(exp_cov)[0::2], 6)}", replay)
                     else:
                         ctx.validated()
                     lens = {len(s) for s in r.samples}
                     if lens != {per_mode * len(modes)}:
-                        ctx.report(f"C02:shape:Gaussian:{dn}", f"{dn} on {len(modes)} mode(s): samples have {sorted(lens)} entries, {per_mode * len(modes)} measured quantities", replay)
+                        ctx.report(f"C02:shape:Gaussian:{dn.split('(')[0]}", f"{dn} on {len(modes)} mode(s): samples have {sorted(lens)} entries, {per_mode * len(modes)} measured quantities", replay)
         counters["states"] += 1
+
+
+def part_postselect_order(ctx, pq, quick, rng, pid="C02"):
+    """post-selection of two modes listed in ascending and in descending order, followed by the measurement of a subset of the surviving
+    modes (addressed by their original labels): both spellings must have the exact conditional marginal law of the PqOptics state"""
+    from piquasso.api.exceptions import NotImplementedCalculation
+    d = 4
+    counters = ctx.notes.setdefault("postselect_order", {"laws": 0, "paths": 0})
+    gates = L.passive_catalogue(d, rng=rng, size=4, with_kerr=False)
+    inputs = [v for v in L.inputs(d, 3) if sum(v) >= 2]
+    recs = c05.explore(ctx, d, gates, [], [], rng.sample(inputs, 2 if quick else 5), 1 if quick else 2)
+    recs = [r for r in recs if len(r["hist"]) > 1]
+    if quick and len(recs) > 10:
+        recs = rng.sample(recs, 10)
+    for rec in recs:
+        inp, steps, probs, amps, nsys, nanc = c05.decode(rec)
+        ins0 = [pq.NumberState(inp).on_modes(*range(d))]
+        name = []
+        for st in steps:
+            g = gates[st["gate"] - 1]
+            ins0.append(g["mk"](pq).on_modes(*g["modes"]))
+            name.append(g["name"] + str(g["modes"]))
+        for trial in range(2):
+            a, b = sorted(rng.sample(range(d), 2))
+            outs = sorted({(v[a], v[b]) for v, p in probs.items() if p > 1e-9})
+            if not outs:
+                continue
+            oa, ob = rng.choice(outs)
+            rest = [m for m in range(d) if m not in (a, b)]
+            meas = (rest[-1],) if trial == 0 else tuple(reversed(rest))
+            exp = {}
+            for v, p in probs.items():
+                if v[a] == oa and v[b] == ob:
+                    k = tuple(v[m] for m in meas)
+                    exp[k] = exp.get(k, 0.0) + p
+            tot = sum(exp.values())
+            exp = {k: p / tot for k, p in exp.items()}
+            for spelling, (ms, cs) in (("ascending", ((a, b), (oa, ob))), ("descending", ((b, a), (ob, oa)))):
+                ins = ins0 + [pq.PostSelectPhotons(photon_counts=cs).on_modes(*ms), pq.ParticleNumberMeasurement().on_modes(*meas)]
+                replay = {"input": inp, "steps": name, "postselect_modes": ms, "photon_counts": cs, "measured": meas}
+                ctx.case((inp, tuple(name), ms, cs, meas))
+                try:
+                    acc, totw, rej, npaths, bad = impl_law(pq, pq.PassiveSimulator, ins, d, trials=1, max_paths=30000)
+                except (SP.Unsupported, NotImplementedCalculation) as e:
+                    ctx.notes.setdefault("unsupported", []).append(str(e)[:80])
+                    continue
+                counters["laws"] += 1
+                counters["paths"] += npaths
+                got = {o[0]: w for o, w in acc.items()}
+                # shots=None: the branch weights are the exact joint probabilities (of the post-selected event and the outcome)
+                try:
+                    with warnings.catch_warnings():
+                        warnings.simplefilter("ignore")
+                        rn = pq.PassiveSimulator(d=d).execute(pq.Program(instructions=ins), shots=None)
+                    gotn = {tuple(int(x) for x in br.outcome): float(br.frequency) for br in rn.branches if float(br.frequency) > 1e-12}
+                    compare_laws(ctx, f"{pid}:weights:Passive:shots-none:postselected:{spelling}", f"PassiveSimulator shots=None branch weights for modes {meas} after {name} on {inp}, post-selected on modes {ms} = {cs}",
+                                 gotn, tot, exp, replay, tol=1e-8)
+                except NotImplementedCalculation:
+                    pass
+                except Exception as e:  # noqa
+                    ctx.report(f"{pid}:weights:Passive:shots-none:postselected:raises:{type(e).__name__}", f"shots=None measurement of modes {meas} raised {type(e).__name__}: {str(e)[:100]} after {name} on {inp}, "
+                               f"post-selected on modes {ms} = {cs}", replay)
+                if not compare_laws(ctx, f"{pid}:law:Passive:postselect-order:{spelling}", f"PassiveSimulator sampling of modes {meas} after {name} on {inp}, post-selected on modes {ms} = {cs}",
+                                    got, totw - rej, exp, replay, tol=1e-8):
+                    ctx.validated()
 
 
 def part_dyne_spec(ctx, pq, quick, rng, pid="C02"):
@@ -514,6 +587,8 @@ def run(ctx):
     ctx.tick("chain_sampler")
     part_reference_state(ctx, pq, quick, rng)
     ctx.tick("reference_state")
+    part_postselect_order(ctx, pq, quick, rng)
+    ctx.tick("postselect_order")
     part_distinguishable_sampler(ctx, pq, quick, rng)
     ctx.tick("distinguishable_sampler")
     part_generaldyne(ctx, pq, quick, rng)
